@@ -2,7 +2,9 @@
 records the committed prefix states, and the fault runs (error variants in-process, crash variant in a child process).
 
 program = {'sessions': [{'mode': 'optimistic'|'immediate'|'serializable'|'pessimistic',
-                         'ops': [[name, int, ...], ...], 'end': 'commit'|'raise'}, ...]}
+                         'ops': [[name, int, ...], ...], 'end': 'commit'|'raise'}, ...],
+           'warm': bool}    # warm: the whole program already ran once on this Database object (statement caches filled),
+                            # then the file was put back to the template and the pooled connection closed
 Every int choice is resolved modulo the number of candidates at run time, so any list of ints is a valid program.
 """
 import os, sys, json, shutil, subprocess
@@ -12,7 +14,12 @@ MODES = {'optimistic': {}, 'immediate': {'immediate': True}, 'serializable': {'s
          'pessimistic': {'optimistic': False}}
 OPS = ('new_person', 'new_item', 'new_tag', 'set_age', 'set_name', 'set_qty', 'move_item', 'del_person', 'del_item',
        'tag_add', 'tag_remove', 'tags_set', 'raw_insert', 'raw_update', 'db_insert', 'bulk_delete', 'query_delete',
-       'flush', 'obj_flush', 'commit', 'rollback', 'read', 'new_item_f', 'set_qty_f', 'del_item_f')
+       'flush', 'obj_flush', 'commit', 'rollback', 'read', 'new_item_f', 'set_qty_f', 'del_item_f', 'nested')
+# operations that send a write statement to the database at once (candidates for "first write of the session")
+DIRECT_WRITES = ('raw_insert', 'raw_update', 'db_insert', 'bulk_delete', 'new_item_f', 'set_qty_f', 'del_item_f')
+# ways of running one operation inside a nested db_session of the enclosing session
+NESTED_FORMS = ('with', 'with_debug_off', 'deco', 'deco_debug_off', 'deco_debug_on', 'deco_immediate', 'sql_debugging')
+NESTED_INNER = ('new_item', 'raw_insert', 'set_qty', 'db_insert', 'new_person', 'read', 'flush')
 NAMES = ['ann', 'bob', 'cy', 'dee']
 FOLLOWUP_ID = 999999
 
@@ -82,7 +89,7 @@ def make_template(path):
 class Env(object):
     """one Pony Database bound to a fresh copy of the template through the fault layer"""
 
-    def __init__(self, template, path, plan=None, parked=None):
+    def __init__(self, template, path, plan=None):
         from pony.orm import Database
         for p in (path, path + '-journal'):
             if os.path.exists(p):
@@ -90,13 +97,29 @@ class Env(object):
         shutil.copyfile(template, path)
         self.path = path
         self.rec = faultdb.Recorder(plan)
-        if parked is not None:
-            self.rec.parked = parked
         self.db = Database()
         self.E = define_entities(self.db)
         self.db.bind('sqlite', path, create_db=False, factory=faultdb.make_factory(self.rec), timeout=0)
         self.db.generate_mapping(check_tables=False, create_tables=False)
+        self.template = template
         self.rec.start()
+
+    def warm_up(self, program):
+        """run the program once without faults (not logged), then restore the database file: models a long-lived process in
+        which every statement of the program has been executed before"""
+        self.rec.base = None
+        try:
+            try:
+                Interp(self, dict(program, warm=False)).run()
+            except Exception:
+                pass
+            self.close()
+            for p in (self.path, self.path + '-journal'):
+                if os.path.exists(p):
+                    os.remove(p)
+            shutil.copyfile(self.template, self.path)
+        finally:
+            self.rec.start()
 
     def locks_free(self):
         prov = self.db.provider
@@ -144,6 +167,8 @@ class Interp(object):
 
     def run(self):
         from pony.orm import db_session
+        if self.program.get('warm'):
+            self.env.warm_up(self.program)
         for si, sess in enumerate(self.program['sessions']):
             kw = MODES[sess.get('mode', 'optimistic')]
             mark = [None]
@@ -282,6 +307,8 @@ class Interp(object):
         elif name == 'rollback':
             (rollback if a % 2 else db.rollback)()
             self.load()
+        elif name == 'nested':
+            self.nested(si, oi, NESTED_FORMS[a % len(NESTED_FORMS)], [NESTED_INNER[b % len(NESTED_INNER)], c, c + 1, c + 2])
         elif name == 'read':
             if a % 2:
                 count(x for x in E['Person'])
@@ -289,6 +316,28 @@ class Interp(object):
                 select(x for x in E['Note'] if x.id > b)[:]
         else:
             raise ValueError('unknown op %r' % (op,))
+
+
+    def nested(self, si, oi, form, inner):
+        """one operation of the session executed inside a nested db_session (never a commit point of the program)"""
+        from pony.orm import db_session, sql_debugging
+
+        def work():
+            self.step(si, oi, inner)
+        if form == 'with':
+            with db_session:
+                work()
+        elif form == 'with_debug_off':
+            with db_session(sql_debug=False):
+                work()
+        elif form == 'sql_debugging':
+            with sql_debugging(False):
+                work()
+        else:
+            kw = {'deco': None, 'deco_debug_off': {'sql_debug': False}, 'deco_debug_on': {'sql_debug': True, 'show_values': False},
+                  'deco_immediate': {'immediate': True}}[form]
+            helper = db_session(work) if kw is None else db_session(**kw)(work)
+            helper()
 
 
 # ---------------------------------------------------------------------------------------------- runs
@@ -448,12 +497,13 @@ def _message(dry, env, k, when, exc, raised, got, allowed, where):
 
 # ---------------------------------------------------------------------------------------------- crash variant
 class CrashServer(object):
-    """client of vlib/c17_crash.py: one child python process per request; the next one is started (and imports Pony)
-    while the current one works.  The child runs the program once per k in threads frozen at call k and then dies with
-    os._exit(137)."""
+    """client of vlib/c17_crash.py: one child python process per request; two more are kept starting (importing Pony)
+    while the current one works.  The child runs every (program, k) of the request up to call k, abandons it there (no
+    later DB-API call reaches SQLite, the connection stays as it was) and finally dies with os._exit(137)."""
+    AHEAD = 2
 
     def __init__(self):
-        self.ready = None
+        self.ready = []
 
     def spawn(self):
         script = os.path.join(os.path.dirname(os.path.abspath(__file__)), 'c17_crash.py')
@@ -461,8 +511,9 @@ class CrashServer(object):
                                 universal_newlines=True, bufsize=1)
 
     def request(self, req):
-        proc = self.ready or self.spawn()
-        self.ready = self.spawn()
+        proc = self.ready.pop(0) if self.ready else self.spawn()
+        while len(self.ready) < self.AHEAD:
+            self.ready.append(self.spawn())
         line = proc.stdout.readline()
         if line.strip() != 'ready':
             raise RuntimeError('crash runner did not start: %r (exit %s)' % (line, proc.poll()))
@@ -474,8 +525,8 @@ class CrashServer(object):
         return {'exit': code if code >= 0 else 128 - code}
 
     def close(self):
-        proc, self.ready = self.ready, None
-        if proc is not None:
+        procs, self.ready = self.ready, []
+        for proc in procs:
             try:
                 proc.stdin.write('\n')
                 proc.stdin.flush()
@@ -488,36 +539,43 @@ class CrashServer(object):
 
 
 def crash_runs(server, template, workdir, program, dry, ks):
-    """kill a child process in which one run of the program per k is frozen right before its call k.
-    Yields (k, violation message | 'inconclusive: ...' | None)."""
+    for _, k, msg in crash_batch(server, template, workdir, [(program, dry, list(ks))]):
+        yield k, msg
+
+
+def crash_batch(server, template, workdir, jobs):
+    """jobs = [(program, dry, ks)].  One child process in which one run per (job, k) was abandoned right before its call
+    k is killed.  Yields (job index, k, violation message | 'inconclusive: ...' | None)."""
     d = os.path.join(workdir, 'crash')
     shutil.rmtree(d, ignore_errors=True)
     os.makedirs(d)
     try:
-        res = server.request({'program': program, 'template': template, 'dir': d, 'ks': list(ks)})
+        res = server.request({'jobs': [{'program': p, 'ks': list(ks)} for p, _, ks in jobs], 'template': template, 'dir': d})
         status = {}
         sp = os.path.join(d, 'status.json')
         if os.path.exists(sp):
             with open(sp) as f:
                 status = json.load(f)
-        for k in ks:
-            if res.get('exit') != 137 or status.get(str(k)) != 'parked':
-                yield k, 'inconclusive: child exit %r, run %d: %r' % (res.get('exit'), k, status.get(str(k)))
-                continue
-            allowed = dry.allowed(k, 'before')
-            got = faultdb.read_database(os.path.join(d, 'crash_%d.sqlite' % k))
-            if any(got == dry.states[j] for j in allowed):
-                yield k, None
-                continue
-            call = dry.calls[k]
-            same_as = [i for i, s in enumerate(dry.states) if s == got]
-            yield k, ('process killed (os._exit) right before call %d (%s %s) of %d. Database read by a new connection %s; '
-                      'expected committed prefix state S%s. Difference to S%d: %s. Calls before the crash: %s'
-                      % (k, call['kind'], (call['sql'] or '')[:60], dry.n,
-                         ('equals prefix state S%d' % same_as[0]) if same_as else 'equals none of the %d prefix states' % len(dry.states),
-                         '/S'.join(map(str, allowed)), allowed[0], diff_states(got, dry.states[allowed[0]]) or 'none',
-                         ' '.join('%s:%s%s' % (e['i'], e['kind'], '(%s)' % e['sql'][:40] if e['sql'] else '')
-                                  for e in dry.calls[max(0, k - 8):k + 1])))
+        for j, (program, dry, ks) in enumerate(jobs):
+            for k in ks:
+                st = status.get('%d:%d' % (j, k))
+                if res.get('exit') != 137 or st != 'frozen':
+                    yield j, k, 'inconclusive: child exit %r, run %d: %r' % (res.get('exit'), k, st)
+                    continue
+                allowed = dry.allowed(k, 'before')
+                got = faultdb.read_database(os.path.join(d, 'crash_%d_%d.sqlite' % (j, k)))
+                if any(got == dry.states[i] for i in allowed):
+                    yield j, k, None
+                    continue
+                call = dry.calls[k]
+                same_as = [i for i, s in enumerate(dry.states) if s == got]
+                yield j, k, ('process killed (os._exit) right before call %d (%s %s) of %d. Database read by a new connection %s; '
+                             'expected committed prefix state S%s. Difference to S%d: %s. Calls before the crash: %s'
+                             % (k, call['kind'], (call['sql'] or '')[:60], dry.n,
+                                ('equals prefix state S%d' % same_as[0]) if same_as else 'equals none of the %d prefix states' % len(dry.states),
+                                '/S'.join(map(str, allowed)), allowed[0], diff_states(got, dry.states[allowed[0]]) or 'none',
+                                ' '.join('%s:%s%s' % (e['i'], e['kind'], '(%s)' % e['sql'][:40] if e['sql'] else '')
+                                         for e in dry.calls[max(0, k - 8):k + 1])))
     finally:
         shutil.rmtree(d, ignore_errors=True)
 
@@ -527,16 +585,38 @@ def programs():
     from hypothesis import strategies as st
     c = st.integers(0, 30)
     weights = dict(new_person=4, new_item=3, new_tag=2, set_age=3, set_name=2, set_qty=3, move_item=2, del_person=2,
-                   del_item=2, tag_add=3, tag_remove=2, tags_set=2, raw_insert=3, raw_update=3, db_insert=3, bulk_delete=2,
+                   del_item=2, tag_add=3, tag_remove=2, tags_set=2, raw_insert=3, raw_update=3, db_insert=3, bulk_delete=3,
                    query_delete=1, flush=2, obj_flush=2, commit=2, rollback=1, read=2,
-                   new_item_f=2, set_qty_f=2, del_item_f=1)
+                   new_item_f=2, set_qty_f=2, del_item_f=1, nested=4)
     names = []
     for n in OPS:
         names.extend([n] * weights[n])
     op = st.tuples(st.sampled_from(names), c, c, c).map(list)
+    direct = st.tuples(st.sampled_from(DIRECT_WRITES), c, c, c).map(list)
+    # a session often starts with a statement that goes to the database at once (the first write decides whether a
+    # transaction is opened in time)
+    ops = st.one_of(st.lists(op, min_size=1, max_size=6),
+                    st.tuples(direct, st.lists(op, min_size=0, max_size=5)).map(lambda t: [t[0]] + t[1]))
     session = st.fixed_dictionaries({
-        'mode': st.sampled_from(sorted(MODES)),
-        'ops': st.lists(op, min_size=1, max_size=6),
+        'mode': st.sampled_from(['optimistic', 'optimistic', 'optimistic', 'immediate', 'serializable', 'pessimistic']),
+        'ops': ops,
         'end': st.sampled_from(['commit', 'commit', 'commit', 'raise']),
     })
-    return st.fixed_dictionaries({'sessions': st.lists(session, min_size=1, max_size=3)})
+    return st.fixed_dictionaries({'sessions': st.lists(session, min_size=1, max_size=3), 'warm': st.booleans()})
+
+
+def grid_programs():
+    """complete small grid: every kind of direct write as the FIRST write of a session, and every nested-session form in
+    the middle of a session, in every session mode, with cold and with warm statement caches"""
+    out = []
+    for warm in (False, True):
+        for mode in sorted(MODES):
+            for name in DIRECT_WRITES:
+                out.append({'sessions': [{'mode': mode, 'ops': [[name, 0, 1, 1], ['new_person', 1, 2, 3]], 'end': 'commit'}],
+                            'warm': warm})
+            for fi, form in enumerate(NESTED_FORMS):
+                if mode in ('serializable', 'pessimistic'):
+                    continue
+                out.append({'sessions': [{'mode': mode, 'ops': [['new_item', 0, 1, 2], ['nested', fi, fi % 2, 1],
+                                                               ['new_person', 1, 2, 3]], 'end': 'commit'}], 'warm': warm})
+    return out
